@@ -5,12 +5,25 @@ namespace NV.C19
 
 /-! ### worker -/
 
-/-- after the fix: STOPPED is stored only by the thread wrapper after `proc` returned -/
+/-- **bridging lemma (translator → model)**: the source stores RUNNING before it calls `pthread_create` and nothing
+    after it.  Everything below is proved for this shape; a source change that moves or adds a store breaks THIS
+    lemma (the regenerated `Gen.C19.createStores*` change), not only the correspondence run. -/
+theorem createProg_eq : createProg = [.store .running, .spawn] := by decide
+
+/-- **bridging lemma**: the thread wrapper stores RUNNING before and STOPPED after the user procedure, and nothing
+    else — which is what `Wk.threadStep` executes -/
+theorem wrapper_stores_eq :
+    Gen.C19.wrapperStoresBeforeProc = [Gen.C19.workerRunning] ∧ Gen.C19.wrapperStoresAfterProc = [Gen.C19.workerStopped] := by
+  decide
+
+/-- **bridging lemma**: the timed join sleeps `pollMs` ms per iteration and adds the same amount to its elapsed counter -/
+theorem join_poll_eq : Gen.C19.joinElapsedStepMs = pollMs ∧ Gen.C19.joinSleepNs = pollMs * 1000000 := by decide
+
+/-- STOPPED is in the state field exactly when the thread wrapper has stored it after `proc` returned -/
 def Wk.StateOk (w : Wk) : Prop := w.state = .stopped ↔ (w.th = .stored ∨ w.th = .exited)
 
-theorem Wk.stateOk_create : Wk.create.StateOk := by simp [Wk.StateOk, Wk.create]
-
-theorem Wk.stateOk_threadStep (w : Wk) (b : Bool) (h : w.StateOk) : (w.threadStep b).StateOk := by
+theorem Wk.stateOk_threadStep (w : Wk) (b : Bool) (hs : w.th ≠ .notSpawned) (h : w.StateOk) :
+    (w.threadStep b).StateOk ∧ (w.threadStep b).th ≠ .notSpawned := by
   unfold Wk.StateOk at *
   unfold Wk.threadStep
   cases hth : w.th <;> simp_all
@@ -19,20 +32,75 @@ theorem Wk.stateOk_threadStep (w : Wk) (b : Bool) (h : w.StateOk) : (w.threadSte
 theorem Wk.stateOk_signalStop (w : Wk) (h : w.StateOk) : w.signalStop.StateOk := by
   simpa [Wk.StateOk, Wk.signalStop] using h
 
+/-- where `async_worker_create` is, and what that means for the shared state -/
+def WSys.CrInv (s : WSys) : Prop :=
+  (s.creator = [.store .running, .spawn] ∧ s.w.th = .notSpawned) ∨
+  (s.creator = [.spawn] ∧ s.w.th = .notSpawned ∧ s.w.state = .running) ∨
+  (s.creator = [] ∧ s.w.th ≠ .notSpawned ∧ s.w.StateOk)
+
 def WSys.Inv (s : WSys) : Prop :=
-  s.w.StateOk ∧
+  s.CrInv ∧
   (match s.pc with
    | .loop e => e = pollMs * s.work ∧ e < s.t + pollMs
    | .pjoin => (s.w.th = .stored ∨ s.w.th = .exited) ∧ s.work ≤ sleepsFor s.t + 1
    | .done _ => s.work ≤ sleepsFor s.t + 2)
 
-theorem WSys.inv_step (s : WSys) (a : WAct) (h : s.Inv) : (s.step a).Inv := by
-  obtain ⟨w, t, pc, work⟩ := s
-  obtain ⟨h1, h2⟩ := h
-  simp only at h1 h2
+theorem WSys.crInv_step (s : WSys) (a : WAct) (h : s.CrInv) : (s.step a).CrInv := by
+  obtain ⟨w, creator, t, pc, work⟩ := s
+  simp only [WSys.CrInv] at h ⊢
   cases a with
+  | creator =>
+    rcases h with ⟨hc, hth⟩ | ⟨hc, hth, hst⟩ | ⟨hc, hth, hok⟩
+    · subst hc; right; left
+      simp [WSys.step, Wk.crStep, hth]
+    · subst hc; right; right
+      simp [WSys.step, Wk.crStep, Wk.StateOk, hst]
+    · subst hc; right; right
+      exact ⟨rfl, hth, hok⟩
   | thread b =>
-    refine ⟨Wk.stateOk_threadStep _ _ h1, ?_⟩
+    rcases h with ⟨hc, hth⟩ | ⟨hc, hth, hst⟩ | ⟨hc, hth, hok⟩
+    · left; simp [WSys.step, Wk.threadStep, hth, hc]
+    · right; left; simp [WSys.step, Wk.threadStep, hth, hc, hst]
+    · right; right
+      have := Wk.stateOk_threadStep w b hth hok
+      exact ⟨hc, this.2, this.1⟩
+  | stop =>
+    rcases h with ⟨hc, hth⟩ | ⟨hc, hth, hst⟩ | ⟨hc, hth, hok⟩
+    · left; exact ⟨hc, hth⟩
+    · right; left; exact ⟨hc, hth, hst⟩
+    · right; right; exact ⟨hc, hth, Wk.stateOk_signalStop w hok⟩
+  | ctl =>
+    simp only [WSys.step]
+    split
+    · exact h
+    · split
+      · exact h
+      · split <;> exact h
+
+theorem WSys.inv_step (s : WSys) (a : WAct) (h : s.Inv) : (s.step a).Inv := by
+  have hcr := WSys.crInv_step s a h.1
+  refine ⟨hcr, ?_⟩
+  obtain ⟨w, creator, t, pc, work⟩ := s
+  obtain ⟨h0, h2⟩ := h
+  simp only at h2
+  cases a with
+  | creator =>
+    simp only [WSys.step]
+    -- the join has not begun (or the creator is done and this is a no-op)
+    cases creator with
+    | nil => exact h2
+    | cons a rest =>
+      simp only
+      cases pc with
+      | loop e => exact h2
+      | done r => exact h2
+      | pjoin =>
+        -- inside pthread_join the creator had finished long ago: CrInv says creator = [] when th is stored/exited
+        rcases h0 with ⟨_, hth⟩ | ⟨_, hth, _⟩ | ⟨hc, _, _⟩
+        · rcases h2.1 with h | h <;> (have := hth.symm.trans h; cases this)
+        · rcases h2.1 with h | h <;> (have := hth.symm.trans h; cases this)
+        · cases hc
+  | thread b =>
     simp only [WSys.step]
     cases pc with
     | loop e => exact h2
@@ -42,69 +110,71 @@ theorem WSys.inv_step (s : WSys) (a : WAct) (h : s.Inv) : (s.step a).Inv := by
       unfold Wk.threadStep
       rcases h2.1 with h | h <;> simp [h]
   | stop =>
-    refine ⟨Wk.stateOk_signalStop _ h1, ?_⟩
     simp only [WSys.step, Wk.signalStop]
     cases pc <;> exact h2
   | ctl =>
-    cases pc with
-    | done r => exact ⟨h1, h2⟩
-    | loop e =>
-      simp only [WSys.step, Wk.joinStep]
-      by_cases hc : w.state ≠ .stopped ∧ e < t
-      · rw [if_pos hc]
-        show WSys.Inv { w := w, t := t, pc := .loop (e + pollMs), work := work + 1 }
-        refine ⟨h1, ?_⟩
-        simp only [pollMs] at h2 ⊢
-        omega
-      · rw [if_neg hc]
-        by_cases hst : w.state = .stopped
-        · rw [if_pos hst]
-          show WSys.Inv { w := w, t := t, pc := .pjoin, work := work + 1 }
-          refine ⟨h1, h1.mp hst, ?_⟩
-          simp only [pollMs, sleepsFor] at h2 ⊢
+    by_cases hcn : creator = []
+    · subst hcn
+      have h1 : w.StateOk := by
+        rcases h0 with ⟨hc, _⟩ | ⟨hc, _, _⟩ | ⟨_, _, hok⟩
+        · cases hc
+        · cases hc
+        · exact hok
+      cases pc with
+      | done r => exact h2
+      | loop e =>
+        simp only [WSys.step, Wk.joinStep, ne_eq, not_true_eq_false, if_false]
+        by_cases hc : w.state ≠ .stopped ∧ e < t
+        · rw [if_pos hc]
+          show (match JoinPc.loop (e + pollMs) with
+            | .loop e => e = pollMs * (work + 1) ∧ e < t + pollMs
+            | .pjoin => (w.th = .stored ∨ w.th = .exited) ∧ work + 1 ≤ sleepsFor t + 1
+            | .done _ => work + 1 ≤ sleepsFor t + 2)
+          simp only [pollMs] at h2 ⊢
           omega
-        · rw [if_neg hst]
-          show WSys.Inv { w := w, t := t, pc := .done false, work := work + 1 }
-          refine ⟨h1, ?_⟩
-          have hge : t ≤ e := by
-            rcases Classical.not_and_iff_not_or_not.mp hc with h | h
-            · exact absurd (Classical.not_not.mp h) hst
-            · omega
-          simp only [pollMs, sleepsFor] at h2 ⊢
+        · rw [if_neg hc]
+          by_cases hst : w.state = .stopped
+          · rw [if_pos hst]
+            show (w.th = .stored ∨ w.th = .exited) ∧ work + 1 ≤ sleepsFor t + 1
+            refine ⟨h1.mp hst, ?_⟩
+            simp only [pollMs, sleepsFor] at h2 ⊢
+            omega
+          · rw [if_neg hst]
+            show work + 1 ≤ sleepsFor t + 2
+            have hge : t ≤ e := by
+              rcases Classical.not_and_iff_not_or_not.mp hc with h | h
+              · exact absurd (Classical.not_not.mp h) hst
+              · omega
+            simp only [pollMs, sleepsFor] at h2 ⊢
+            omega
+      | pjoin =>
+        simp only [WSys.step, Wk.joinStep, ne_eq, not_true_eq_false, if_false]
+        by_cases hex : w.th = .exited
+        · rw [if_pos hex]
+          show work + 1 ≤ sleepsFor t + 2
           omega
-    | pjoin =>
-      simp only [WSys.step, Wk.joinStep]
-      by_cases hex : w.th = .exited
-      · rw [if_pos hex]
-        show WSys.Inv { w := w, t := t, pc := .done true, work := work + 1 }
-        refine ⟨h1, ?_⟩
-        simp only; omega
-      · rw [if_neg hex]
-        exact ⟨h1, h2⟩
+        · rw [if_neg hex]
+          exact h2
+    · simp only [WSys.step, ne_eq, hcn, not_false_eq_true, if_true]
+      exact h2
 
 theorem WSys.inv_run (s : WSys) (acts : List WAct) (h : s.Inv) : (s.run acts).Inv := by
   induction acts generalizing s with
   | nil => exact h
   | cons a rest ih => exact ih _ (inv_step s a h)
 
-theorem WSys.stateOk_pre (s : WSys) (acts : List WAct) (hd : ∃ r, s.pc = .done r) (h : s.w.StateOk) :
-    (s.run acts).w.StateOk := by
+theorem WSys.crInv_run (s : WSys) (acts : List WAct) (h : s.CrInv) : (s.run acts).CrInv := by
   induction acts generalizing s with
   | nil => exact h
-  | cons a rest ih =>
-    obtain ⟨r, hr⟩ := hd
-    cases a with
-    | thread b => exact ih _ ⟨r, by simp [WSys.step, hr]⟩ (Wk.stateOk_threadStep _ _ h)
-    | stop => exact ih _ ⟨r, by simp [WSys.step, hr]⟩ (Wk.stateOk_signalStop _ h)
-    | ctl =>
-      have : s.step .ctl = s := by simp [WSys.step, hr]
-      simp only [WSys.run, List.foldl_cons, this]
-      exact ih s ⟨r, hr⟩ h
+  | cons a rest ih => exact ih _ (crInv_step s a h)
 
 theorem WSys.inv_start (t : Nat) (pre : List WAct) : (WSys.start t pre).Inv := by
+  have h0 : (WSys.fresh createProg t).CrInv := by
+    left; exact ⟨createProg_eq, rfl⟩
+  have := WSys.crInv_run _ pre h0
   refine ⟨?_, ?_⟩
-  · exact WSys.stateOk_pre _ pre ⟨false, rfl⟩ Wk.stateOk_create
-  · simp [WSys.start, pollMs]
+  · exact this
+  · simp [WSys.start, WSys.startWith, pollMs]
 
 /-! ### timer -/
 
